@@ -8,36 +8,36 @@ VERIF = os.path.dirname(os.path.dirname(os.path.abspath(__file__)))
 # property -> (technique, level text, level note, design ref)
 # property -> technique (the level text comes from the checker's own description of the rules: vcheck -list-json)
 TECHNIQUE = {
- "C01": "path-sensitive exploration (event bits for Content-Length / Transfer-Encoding matches, facts on connectionClose and the framing cell) of the request head field loop; serve-loop error exploration; byte-comparison coverage of the chunk-size scanner",
+ "C01": "path-sensitive exploration (event bits for Content-Length / Transfer-Encoding matches, facts on connectionClose and the framing cell) of the request head field loop; serve-loop error exploration; byte-comparison coverage of the chunk-size scanner; return classification of the body readers the serve loop dispatches (rejection / framed-reader verdict / success guarded by the declared framing)",
  "C03": "value-flow to the bounding writer and bounded-use classification of its methods, path-sensitive nil-return exploration of writeBodyFixedSize, control-dependence of body emission on the no-body predicate, must-pass rules in SetContentLength, serve-loop HEAD exploration",
- "C02": "path-sensitive exploration of the serve loop's SSA CFG over a finite abstraction (event bits + boolean/nil facts): must-close / must-check obligations per iteration",
- "C04": "connection typestate in RoundTrip by path-sensitive exploration (dispose-exactly-once counter, pooled-only-after-clean-read), control-dependence of pooling in the stream-close closure, select-case typestate of pooled pipeline work items, per-item typestate of the pipeline writer",
+ "C02": "path-sensitive exploration of the serve loop's SSA CFG over a finite abstraction (event bits + boolean/nil facts): must-close / must-check obligations per iteration; must-pass (reach-avoiding) rule: chunked-EOF flag raised only after the trailer reader and an examination of its error",
+ "C04": "connection typestate in RoundTrip by path-sensitive exploration (dispose-exactly-once counter, pooled-only-after-clean-read), control-dependence of pooling in the stream-close closure, select-case typestate of pooled pipeline work items, per-item typestate of the pipeline writer; header-overwrite-before-close ordering rule with inputs recomputed from the stream-close closure (must-write summaries)",
  "C39": "typestate of spawned children by path-sensitive exploration of the supervision function (recorded + waited before any return, hook or next spawn), dominance of the deferred teardown, ordering rules (reach-avoiding searches) inside the teardown",
  "C40": "loop-carried tuple coupling by alias-tracking exploration of the selection loop, penalty pairing (counters in the abstract state), nil-result handling and panic reachability over the static call graph",
  "C41": "semaphore pairing and select-case typestate by path-sensitive exploration of tryDial, provenance of the connect context's bound, wrap-on-return rule, must-pass rules in the rotation loop",
- "C05": "backward cleanliness (taint) analysis with sanitiser classes over SSA: reaching definitions of scratch fields, in-place and returning neutraliser summaries, call-site resolution of helper parameters, induction over checked storage fields; neutraliser shape precondition",
- "C06": "as C05 with two sanitiser classes (CR/LF and ';') for Cookie fields and the request cookie list",
- "C07": "limit-flow: interprocedural propagation of limit parameters, use classification (compared / limited reader / forwarded), loop-carried staleness of the serve loop's limit variable, must-pass rules on the error response path",
- "C10": "backward condition slicing (interprocedural atoms of the close decision) + path-sensitive exploration of the serve loop",
- "C11": "field-coverage must-analysis of reset methods (forward dataflow, intersection at joins, callee summaries) + loop-carried staleness exploration of the serve loop",
+ "C05": "backward cleanliness (taint) analysis with sanitiser classes over SSA: reaching definitions of scratch fields, in-place and returning neutraliser summaries, call-site resolution of helper parameters, induction over checked storage fields; neutraliser shape precondition; scan-coverage of the neutralisers in the zone (difference-bound) domain",
+ "C06": "as C05 with two sanitiser classes (CR/LF and ';') for Cookie fields and the request cookie list; out-parameter completeness of the cookie scanners by path-sensitive exploration",
+ "C07": "limit-flow: interprocedural propagation of limit parameters, use classification (compared / limited reader / forwarded), loop-carried staleness of the serve loop's limit variable, must-pass rules on the error response path; per-path must-precede rule for buffering reads in limit-rejecting functions",
+ "C10": "backward condition slicing (interprocedural atoms of the close decision) + path-sensitive exploration of the serve loop; loop-exit classification after a written response; callee identity of every comparison with the close token",
+ "C11": "field-coverage must-analysis of reset methods (forward dataflow, intersection at joins, callee summaries) + loop-carried staleness exploration of the serve loop; ctx-state family: handler-settable RequestCtx fields (derived from exported setters) cleared / found zero / replaced on every path to the next request",
  "C12": "counter pairing by path-sensitive exploration with counters in the abstract state (deferred calls applied at exit, ownership hand-offs as rule events), control-dependence of admission on the limit comparison, must-pass rules on rejection paths",
- "C13": "lockset must-analysis (guarded-by table), critical-section atomicity by reach-avoiding searches, path-sensitive per-iteration typestate of the worker loop",
- "C14": "typestate automaton over constant ConnState arguments explored on every path of the serve loop's SSA CFG",
- "C15": "path-sensitive exploration of the serve loop: ordering of idle-marker stores, handler dispatch and stop-flag loads",
- "C16": "path-sensitive exploration of the serve loop's timeout branch: value identity of the ctx written/released, stale-field reads after the swap",
- "C17": "path-sensitive exploration (ordering and never-after rules) of the serve loop's hijack branch and of hijackConnHandler",
- "C18": "connsCount pairing per function (counters in the abstract state, contracts of callees), lockset must-analysis with a guarded-by table, bound check control-dependence and critical-section atomicity by reach-avoiding searches",
+ "C13": "lockset must-analysis (guarded-by table), critical-section atomicity by reach-avoiding searches, path-sensitive per-iteration typestate of the worker loop; container-alias escape analysis on guarded slices",
+ "C14": "typestate automaton over constant ConnState arguments explored on every path of the serve loop's SSA CFG; typestate of callers that run the serve loop and report states themselves",
+ "C15": "path-sensitive exploration of the serve loop: ordering of idle-marker stores, handler dispatch and stop-flag loads; dirty-writer typestate (written response flushed before a nil-result end); done-channel / flag coupling by reach-avoiding searches",
+ "C16": "path-sensitive exploration of the serve loop's timeout branch: value identity of the ctx written/released, stale-field reads after the swap; semaphore placement rules for the timeout wrapper (release only after the wrapped handler, in its goroutine; creation-on-read of the channel); re-imposition of ctx bookkeeping after every (re)acquisition of the ctx",
+ "C17": "path-sensitive exploration (ordering and never-after rules) of the serve loop's hijack branch and of hijackConnHandler; ctx-state family for hijack fields",
+ "C18": "connsCount pairing per function (counters in the abstract state, contracts of callees), lockset must-analysis with a guarded-by table, bound check control-dependence and critical-section atomicity by reach-avoiding searches; container-alias escape analysis on the idle list",
  "C19": "path-sensitive exploration of the retry loop (per-transmission must-pass events, loop-invariance of the body-stream flag, retry-decision phi), condition atoms of the idempotency predicate, constant retry flags of the transport's early returns",
  "C20": "reach-avoiding (must-pass) searches between hops of the redirect loop, constant sets of deleted header names, backward value slicing of the trust anchor (derives from the URL string, not from Request storage; loop-invariant)",
- "C21": "path-sensitive exploration: scheme comparison on every path to the transport, TLS-typed results of dialAddr under the TLS flag; value-flow of the map-selecting flag into HostClient.IsTLS",
- "C22": "result-use analysis of stackless function values (SSA referrers, reach-avoiding search on the queue-full edge), sibling cross-check of the body compressors, control-dependence of coder selection",
- "C34": "reach-avoiding searches in the stream closers and writers, classification of every store to a bodyStream field (wrap/swap, dominated by the closer, read path)",
+ "C21": "path-sensitive exploration: scheme comparison on every path to the transport, TLS-typed results of dialAddr under the TLS flag; value-flow of the map-selecting flag into HostClient.IsTLS; derivation/examination rule for every re-parse during reference resolution",
+ "C22": "result-use analysis of stackless function values (SSA referrers, reach-avoiding search on the queue-full edge), sibling cross-check of the body compressors, control-dependence of coder selection; buffer-release ordering in the body compressors; zone analysis of level normalisers against the codec packages' level constants",
+ "C34": "reach-avoiding searches in the stream closers and writers, classification of every store to a bodyStream field (wrap/swap, dominated by the closer, read path); lockset check of the once-guard of the compressed stream wrapper",
  "C35": "path-sensitive typestate of *multipart.Form values from their producing call to every return; dominance of RemoveAll over nil stores; reset coverage; serve-loop must-reset",
- "C37": "lockset must-analysis against a frozen guarded-by table (discovered statistically, confirmed by reading), atomic-access consistency over all loads/stores, publish-immutability of lock-free shared entries",
+ "C37": "lockset must-analysis against a frozen guarded-by table (discovered statistically, confirmed by reading), atomic-access consistency over all loads/stores, publish-immutability of lock-free shared entries; container-alias escape analysis on every guarded slice/map",
  "C38": "typestate over select cases (timer / queue / completion) explored on every path of the deadline call; shape of the overflow return",
- "C23": "path-sensitive exploration of the FS request handler (guards before every use of the path, correlated with the rewriter's nil-ness), who-may-call rule over file-system access sites, operand provenance of the normaliser's dot tests",
- "C24": "zone (difference-bound) abstract interpretation of ParseByteRange path by path; path-sensitive exploration of the range branches of the FS handler; field re-arm coverage of pooled readers",
- "C25": "file-value typestate per function with ownership contracts of callees (path-sensitive exploration with a disposal counter), reader-count pairing in the handler, read-modify-write interference rule on tracking lists, lockset must-analysis",
+ "C23": "path-sensitive exploration of the FS request handler (guards before every use of the path, correlated with the rewriter's nil-ness), who-may-call rule over file-system access sites, operand provenance of the normaliser's dot tests; exactness of the NUL guard decided in the zone domain",
+ "C24": "zone (difference-bound) abstract interpretation of ParseByteRange path by path; path-sensitive exploration of the range branches of the FS handler; field re-arm coverage of pooled readers; window-bounded ReadAt buffers in the zone domain (field-load identity, slice lengths, one loop iteration from the header)",
+ "C25": "file-value typestate per function with ownership contracts of callees (path-sensitive exploration with a disposal counter), reader-count pairing in the handler, read-modify-write interference rule on tracking lists, lockset must-analysis; use-after-release rule for lists the file's Release walks; container-alias escape analysis",
  "C28": "classification of element moves in key/value slice routines by index provenance (len-derived vs forward) + who-may-shorten rule over all stores to Args storage",
  "C29": "as C28 for header storage + sibling agreement of special-name tables + CopyTo field coverage (must-write and copied-from-same-field analyses)",
  "C30": "constant evaluation (big-integer side conditions) + path-sensitive guard exploration on SSA",
